@@ -9,6 +9,7 @@ import (
 	"path/filepath"
 	"strings"
 	"sync"
+	"sync/atomic"
 	"time"
 )
 
@@ -228,6 +229,7 @@ func solveAll(vcs []*VC, dir string, workers, timeoutS, seed int, keepQueries bo
 		wg.Wait()
 	}
 	// phase 2: individual queries for the rest
+	var nmodels int32
 	ch := make(chan job)
 	var wg sync.WaitGroup
 	for w := 0; w < workers; w++ {
@@ -267,7 +269,8 @@ func solveAll(vcs []*VC, dir string, workers, timeoutS, seed int, keepQueries bo
 					j.r.Status = "discharged"
 				case ans == "sat":
 					j.r.Status = "failed"
-					if !j.o.ExpectFail {
+					// models are asked for the first 24 refuted obligations only (a broken function fails many at once)
+					if !j.o.ExpectFail && atomic.AddInt32(&nmodels, 1) <= 24 {
 						for _, s := range solvers {
 							if s.name == solver {
 								_, m, _ := runSolver(s, dir, name+".model", q, timeoutS, true, seed)
@@ -306,10 +309,17 @@ func solveAll(vcs []*VC, dir string, workers, timeoutS, seed int, keepQueries bo
 	// phase 3: what is still undecided (typically: a timeout caused by the load of the parallel phases)
 	// is tried once more, one obligation at a time, with three times the time limit. Canaries are
 	// left alone (an undecided canary is not reported).
+	retried := 0
+	retryStart := time.Now()
 	for _, j := range jobs {
 		if j.r.Status != "unknown" || j.o.ExpectFail {
 			continue
 		}
+		// bounded: when many obligations are undecided the cause is not load, and each retry is slow
+		if retried >= 12 || time.Since(retryStart).Seconds() > float64(12*timeoutS) {
+			break
+		}
+		retried++
 		q := j.vc.query(j.o)
 		name := fmt.Sprintf("%s.%d.retry", sanitize(j.o.Func), j.o.ID)
 		for _, s := range solvers {
